@@ -630,7 +630,10 @@ pub fn c12(progs: &[Prog], decls: &Decls, max_tokens: usize) -> EnumOutcome {
             // ---- routing: a help option anywhere among the arguments (before any `--`) never reaches the handler
             for cmd in top_commands(decls, prog.id) {
                 let alphabet: Vec<String> = cmd.tokens.iter().take(8).cloned().collect();
-                for combo in combos(&alphabet, max_tokens) {
+                // short lines exhaustively, plus every fifth complete argument line of commands with many fields
+                let mut lines: Vec<Vec<String>> = combos(&alphabet, max_tokens);
+                lines.extend(cmd.long_lines.iter().step_by(5).cloned());
+                for combo in lines {
                     for h in ["-h", "--help", "-zh"] {
                         for pos in 0..=combo.len() {
                             let mut tokens = vec![cmd.name.clone()];
